@@ -109,6 +109,60 @@ func firstBytePredicate(fn *ssa.Function) (acc byteSet, emptyAccepted bool, why 
 					}
 				}
 			}
+			// arithmetic on the first byte (e.g. the wrap-around range test s[0]-'A' < 26): evaluated
+			// concretely for every byte still possible
+			if !isFirst(x.X) && !isFirst(x.Y) {
+				if _, okx := byteExpr(x.X, isFirst, 0, 0); okx {
+					if _, oky := byteExpr(x.Y, isFirst, 0, 0); oky {
+						var tr, fr [][2]int
+						add := func(rs [][2]int, b int) [][2]int {
+							if n := len(rs); n > 0 && rs[n-1][1] == b-1 {
+								rs[n-1][1] = b
+								return rs
+							}
+							return append(rs, [2]int{b, b})
+						}
+						for b := st.lo; b <= st.hi; b++ {
+							l, _ := byteExpr(x.X, isFirst, int64(b), 0)
+							r, _ := byteExpr(x.Y, isFirst, int64(b), 0)
+							var res, known bool
+							switch x.Op {
+							case token.LSS:
+								res, known = l < r, true
+							case token.LEQ:
+								res, known = l <= r, true
+							case token.GTR:
+								res, known = l > r, true
+							case token.GEQ:
+								res, known = l >= r, true
+							case token.EQL:
+								res, known = l == r, true
+							case token.NEQ:
+								res, known = l != r, true
+							}
+							if !known {
+								failed = "unsupported comparison"
+								return
+							}
+							if res {
+								tr = add(tr, b)
+							} else {
+								fr = add(fr, b)
+							}
+						}
+						mk2 := func(rs [][2]int) []bpState {
+							var out []bpState
+							for _, r := range rs {
+								s2 := st
+								s2.lo, s2.hi = r[0], r[1]
+								out = append(out, s2)
+							}
+							return out
+						}
+						return mk2(tr), mk2(fr)
+					}
+				}
+			}
 			var k int64
 			var isK bool
 			op := x.Op
@@ -216,6 +270,68 @@ func firstBytePredicate(fn *ssa.Function) (acc byteSet, emptyAccepted bool, why 
 		}
 	}
 	return acc, emptyAccepted, failed
+}
+
+// byteExpr evaluates an integer expression over the first byte (constants, + - & | ^ with the Go
+// wrap-around of the expression's own type, integer conversions) for first byte = b. ok=false when the
+// expression contains anything else; an expression without the first byte at all is a constant.
+func byteExpr(v ssa.Value, isFirst func(ssa.Value) bool, b int64, depth int) (int64, bool) {
+	if depth > 6 {
+		return 0, false
+	}
+	wrap := func(x int64, t types.Type) int64 {
+		bt, ok := t.Underlying().(*types.Basic)
+		if !ok {
+			return x
+		}
+		switch bt.Kind() {
+		case types.Uint8:
+			return int64(uint8(x))
+		case types.Int8:
+			return int64(int8(x))
+		case types.Uint16:
+			return int64(uint16(x))
+		case types.Int16:
+			return int64(int16(x))
+		case types.Uint32:
+			return int64(uint32(x))
+		case types.Int32:
+			return int64(int32(x))
+		}
+		return x
+	}
+	if isFirst(v) {
+		return wrap(b, v.Type()), true
+	}
+	switch x := v.(type) {
+	case *ssa.Const:
+		k, ok := constInt(x)
+		return k, ok
+	case *ssa.Convert:
+		if bt, ok := x.Type().Underlying().(*types.Basic); ok && bt.Info()&types.IsInteger != 0 {
+			in, ok := byteExpr(x.X, isFirst, b, depth+1)
+			return wrap(in, x.Type()), ok
+		}
+	case *ssa.BinOp:
+		l, ok1 := byteExpr(x.X, isFirst, b, depth+1)
+		r, ok2 := byteExpr(x.Y, isFirst, b, depth+1)
+		if !ok1 || !ok2 {
+			return 0, false
+		}
+		switch x.Op {
+		case token.ADD:
+			return wrap(l+r, x.Type()), true
+		case token.SUB:
+			return wrap(l-r, x.Type()), true
+		case token.AND:
+			return wrap(l&r, x.Type()), true
+		case token.OR:
+			return wrap(l|r, x.Type()), true
+		case token.XOR:
+			return wrap(l^r, x.Type()), true
+		}
+	}
+	return 0, false
 }
 
 func byteSetString(s byteSet) string {
@@ -386,6 +502,28 @@ func runC20Extra(c *Ctx) {
 					}
 				}
 				c.Check(len(bad) == 0, "C20-SCALAR", fnName(fn), fmt.Sprintf("%s#%d", cls, n[cls]), call.Pos(), nm+"("+acc+"())", strings.Join(bad, "; "))
+			}
+		}
+	}
+	// no narrowing of the accessor's result before it is rendered (strconv.Itoa(int(tv.Int())) prints the
+	// low 32 bits of an int64 on 32-bit platforms)
+	for _, fn := range []*ssa.Function{hd, kv} {
+		for _, b := range fn.Blocks {
+			for _, ins := range b.Instrs {
+				cv, ok := ins.(*ssa.Convert)
+				if !ok {
+					continue
+				}
+				src, ok := cv.X.(*ssa.Call)
+				if !ok {
+					continue
+				}
+				if nm := calleeName(&src.Call); nm != "(reflect.Value).Int" && nm != "(reflect.Value).Uint" {
+					continue
+				}
+				c.Sites++
+				why := lossyIntConv(cv.X.Type(), cv.Type())
+				c.Check(why == "", "C20-SCALAR", fnName(fn), "narrowing:"+cv.Type().String(), cv.Pos(), "value preserving conversion", "the number is converted before it is rendered: "+why)
 			}
 		}
 	}
